@@ -196,6 +196,9 @@ impl Parser {
             parse_errors: parse_errors.clone(),
         }));
         let r = match prsr.start() {
+            // A tree with syntax errors contains error nodes the visitor cannot
+            // walk; the errors collected by the listeners are returned below.
+            Ok(_) if !parse_errors.borrow().is_empty() => Ok(IdedExpr::default()),
             Ok(t) => Ok(self.visit(t.deref())),
             Err(e) => Err(ParseError {
                 source: Some(Box::new(e)),
